@@ -387,6 +387,23 @@ def recompute_id(folder, vectors=None):
                 out["insts"] = insts
             except Exception as e:  # noqa
                 out["insts_exc"] = exc_name(e) + ": " + str(e)[:100]
+            # does the best-fit instance load from samples.csv with the stored model? (library calls only)
+            try:
+                import csv as _csv
+                from autofit.non_linear.samples.sample import samples_from_iterator
+                from autoconf.class_path import get_class
+                info_json = json.load(open(os.path.join(fp, "samples_info.json")))
+                with open(os.path.join(fp, "samples.csv")) as f:
+                    sl = samples_from_iterator(_csv.reader(f))
+                cls = get_class(info_json["class_path"])
+                smp = cls.from_list_info_and_model(sample_list=sl, samples_info=info_json, model=model)
+                try:
+                    smp.max_log_likelihood()
+                except (AttributeError, NotImplementedError):
+                    pass
+                out["load_error"] = None
+            except Exception as e:  # noqa
+                out["load_error"] = exc_name(e)
         return out
     except Exception as e:  # noqa
         return {"exc": exc_name(e), "msg": str(e)[:200]}
